@@ -43,8 +43,11 @@ func main() {
 		"loaders internal/runtime.go builds from module_path, or a chain of file-based loaders each parented by the next: environment <- module) " +
 		"+ a sequence of lookups through several contexts; families: corpus, " +
 		"bounded-exhaustive (every tree of 1-2 files over 8 paths x 8 contents x 3 loader kinds, 12 names x 2 contexts; every chain of an " +
-		"environment with 0-1 file over 4 paths x 5 contents under a module with 0-1 file over 3 paths x 4 contents, 7 names looked up three times), seeded random " +
-		"(nested namespaces, stray / upper-case / malformed / misnamed / unreadable files, type sets, cyclic references, near-miss names). " +
+		"environment with 0-1 file over 4 paths x 5 contents under a module with 0-1 file over 3 paths x 4 contents, 7 names looked up three times; " +
+		"every ordered pair of 9 contents (absent included) for one definition path in two generations of the same directory path in one process), seeded random " +
+		"(nested namespaces, stray / upper-case / malformed / misnamed / unreadable files, type sets, cyclic references, near-miss names; comment / blank / white-space-only lines in front of the first token in 5 styles, " +
+		"byte order marks and CR LF line ends; one case in seven has 1-2 further generations: the directory written again at the same path " +
+		"with changed contents, new loaders in the same process). " +
 		"Non-trivial = at least one lookup reads a file (a definition is instantiated or a bad file is reported); distinct = distinct " +
 		"(layout, operation sequence)"
 	rng := lib.NewRng(cfg.Seed)
@@ -101,7 +104,10 @@ func main() {
 				cfs = append(cfs, cf)
 				cf = newCasesFile()
 			}
-			cf.Add(gallinaCase(cs, cr, mode000), cs)
+			cf.Add(gallinaCase(cs, cr, 0, mode000), cs)
+			for g := 1; g <= len(cs.Then) && g <= len(cr.Then); g++ {
+				cf.Add(gallinaCase(cs, cr, g, mode000), cs)
+			}
 		}
 		if i%397 == 3 {
 			res.Sample(map[string]interface{}{"family": cs.Family, "top": cs.Top, "mods": cs.Mods, "ops": cs.Ops[:min(4, len(cs.Ops))], "outcomes": cr.Outcomes[:min(4, len(cr.Outcomes))]})
@@ -124,6 +130,12 @@ func min(a, b int) int {
 }
 
 func tally(res *lib.Result, cs *Case, cr *CaseResult) {
+	for k := range cs.Then {
+		if k < len(cr.Then) {
+			res.Count("generation.further")
+			tally(res, &cs.Then[k], &cr.Then[k])
+		}
+	}
 	nontrivial := false
 	for i, o := range cr.Outcomes {
 		res.Count("op." + cs.Ops[i].Op)
@@ -140,6 +152,12 @@ func tally(res *lib.Result, cs *Case, cr *CaseResult) {
 	for _, m := range cs.Mods {
 		for _, f := range m.Files {
 			if f.Content != nil {
+				if f.Content.Pad > 0 {
+					res.Count(fmt.Sprintf("preamble.style%d", f.Content.Pre%nPre))
+				}
+				if f.Content.Enc != "" {
+					res.Count("file.enc." + f.Content.Enc)
+				}
 				res.Count("file." + f.Kind + "." + f.Content.Class)
 			} else {
 				res.Count("file." + f.Kind)
@@ -151,7 +169,8 @@ func tally(res *lib.Result, cs *Case, cr *CaseResult) {
 			M []ModSpec
 			O []Op
 			T string
-		}{cs.Mods, cs.Ops, cs.Top})
+			N []Case
+		}{cs.Mods, cs.Ops, cs.Top, cs.Then})
 		res.Nontrivial(string(b))
 	}
 }
@@ -179,6 +198,12 @@ func generate(cfg *lib.Config, rng *lib.Rng, mode000 bool) ([]Case, []bool) {
 	}
 	n = 0
 	genExhaustiveChain(func(c Case) {
+		n++
+		cases = append(cases, c)
+		toCoq = append(toCoq, n%chStride == 0)
+	})
+	n = 0
+	genExhaustiveRegen(func(c Case) {
 		n++
 		cases = append(cases, c)
 		toCoq = append(toCoq, n%chStride == 0)
@@ -326,6 +351,22 @@ func (l *limitedWriter) Write(p []byte) (int, error) {
 }
 
 func printReplay(cs *Case, cr *CaseResult, vs []lib.Violation) {
+	printGen(cs, cr)
+	for k := range cs.Then {
+		if k < len(cr.Then) {
+			fmt.Printf("-- generation %d: the directory is removed and written again at the same path, new loaders, same process\n", k+1)
+			printGen(&cs.Then[k], &cr.Then[k])
+		}
+	}
+	if len(vs) == 0 {
+		fmt.Println("the implementation satisfies every clause of the property on this case")
+	}
+	for _, v := range vs {
+		fmt.Printf("FAILS %s: %s\n", v.Clause, v.What)
+	}
+}
+
+func printGen(cs *Case, cr *CaseResult) {
 	fmt.Printf("case %s (%s), modules:\n", cs.Family, cs.Top)
 	for _, m := range cs.Mods {
 		fmt.Printf("  %s (module name %q)\n", m.Dir, m.Name)
@@ -344,11 +385,5 @@ func printReplay(cs *Case, cr *CaseResult, vs []lib.Violation) {
 		op := cs.Ops[i]
 		b, _ := json.Marshal(o)
 		fmt.Printf("  %2d %-10s ctx=%d mod=%d %-28q => %s\n", i, op.Op, op.Ctx, op.Mod, op.Name, b)
-	}
-	if len(vs) == 0 {
-		fmt.Println("the implementation satisfies every clause of the property on this case")
-	}
-	for _, v := range vs {
-		fmt.Printf("FAILS %s: %s\n", v.Clause, v.What)
 	}
 }
